@@ -248,6 +248,10 @@ func checkFields(s *kit.Summary) {
 }
 
 // equalAll is the property's notion of equality lifted to sequences.
+// eq is the property's notion of equality (Result.Equal) backed by a comparison written for the harness,
+// so that a codec losing a field cannot hide behind an Equal that stopped looking at it.
+func eq(a, b *vegeta.Result) bool { return a.Equal(*b) && b.Equal(*a) && gen.SameResult(a, b) }
+
 func equalAll(a, b []vegeta.Result) (bool, int) {
 	if len(a) != len(b) {
 		n := len(a)
@@ -255,14 +259,14 @@ func equalAll(a, b []vegeta.Result) (bool, int) {
 			n = len(b)
 		}
 		for i := 0; i < n; i++ {
-			if !a[i].Equal(b[i]) {
+			if !eq(&a[i], &b[i]) {
 				return false, i
 			}
 		}
 		return false, n
 	}
 	for i := range a {
-		if !a[i].Equal(b[i]) {
+		if !eq(&a[i], &b[i]) {
 			return false, i
 		}
 	}
@@ -692,16 +696,170 @@ func domainOpts(codecName string, r *kit.Rng) gen.ResultOpts {
 	return o
 }
 
+// fullResult has no zero field; sparse drops a random subset of a result's fields to their zero values.
+func fullResult(r *kit.Rng, cn string) vegeta.Result {
+	o := domainOpts(cn, r)
+	x := gen.Result(r, o)
+	if x.Attack == "" {
+		x.Attack = "atk"
+	}
+	if x.Error == "" {
+		x.Error = "some error"
+	}
+	if x.Method == "" {
+		x.Method = "GET"
+	}
+	if x.URL == "" {
+		x.URL = "http://h/p"
+	}
+	if len(x.Body) == 0 {
+		x.Body = []byte("body")
+	}
+	if len(x.Headers) == 0 {
+		x.Headers = http.Header{"Content-Type": {"text/plain"}, "X-A": {"1", "2"}}
+	}
+	if x.Seq == 0 {
+		x.Seq = 7
+	}
+	if x.Code == 0 {
+		x.Code = 200
+	}
+	if x.Latency == 0 {
+		x.Latency = 1234567
+	}
+	if x.BytesIn == 0 {
+		x.BytesIn = 4
+	}
+	if x.BytesOut == 0 {
+		x.BytesOut = 9
+	}
+	return x
+}
+
+func sparse(r *kit.Rng, x vegeta.Result, p float64) vegeta.Result {
+	if r.Chance(p) {
+		x.Attack = ""
+	}
+	if r.Chance(p) {
+		x.Seq = 0
+	}
+	if r.Chance(p) {
+		x.Code = 0
+	}
+	if r.Chance(p) {
+		x.Latency = 0
+	}
+	if r.Chance(p) {
+		x.BytesOut = 0
+	}
+	if r.Chance(p) {
+		x.BytesIn = 0
+	}
+	if r.Chance(p) {
+		x.Error = ""
+	}
+	if r.Chance(p) {
+		x.Body = nil
+	}
+	if r.Chance(p) {
+		x.Method = ""
+	}
+	if r.Chance(p) {
+		x.URL = ""
+	}
+	if r.Chance(p) {
+		x.Headers = nil
+	} else if r.Chance(p / 2) {
+		x.Headers = http.Header{}
+	}
+	return x
+}
+
+var bigSizes = [][2]int{{700, 800}, {1000, 1100}, {3000, 3200}, {4000, 4200}, {5400, 5600}, {8100, 8300}, {16300, 16500}}
+var hugeSizes = [][2]int{{49000, 49300}, {65400, 65700}, {70000, 90000}}
+
+// genResults draws a stream; shape names the dimension it was built for (counted in the evidence).
 func genResults(r *kit.Rng, codecName string) []vegeta.Result {
-	n := 1 + r.Pick(4)
-	if r.Chance(0.05) {
-		n = 0
-	}
-	rs := make([]vegeta.Result, n)
-	for i := range rs {
-		rs[i] = gen.Result(r, domainOpts(codecName, r))
-	}
+	rs, _ := genShaped(r, codecName)
 	return rs
+}
+
+func genShaped(r *kit.Rng, cn string) (rs []vegeta.Result, shape string) {
+	p := r.Float64()
+	switch {
+	case p < 0.05:
+		return []vegeta.Result{}, "empty-stream"
+	case p < 0.13:
+		// state carried from one record to the next: a record with every field set, then records with zero /
+		// empty / nil fields, then a full one again
+		shape = "full-then-sparse"
+		rs = append(rs, fullResult(r, cn))
+		for k := 0; k <= r.Pick(3); k++ {
+			rs = append(rs, sparse(r, fullResult(r, cn), 0.5))
+		}
+		rs = append(rs, sparse(r, fullResult(r, cn), 1.0)) // only the timestamp left
+		rs = append(rs, fullResult(r, cn))
+		if r.Chance(0.5) { // the same record twice in a row
+			rs = append(rs, gen.CloneResult(&rs[len(rs)-1]))
+		}
+	case p < 0.19:
+		// results of one burst: timestamps within the same second / millisecond / identical
+		shape = "close-timestamps"
+		n := 2 + r.Pick(5)
+		base := gen.TimestampNs(r)
+		for i := 0; i < n; i++ {
+			x := gen.Result(r, domainOpts(cn, r))
+			loc := x.Timestamp.Location()
+			d := r.PickI64([]int64{0, 1, 999, 1000, 1001, 999999, 1000000, 123456789, 500000000, 999999999, 1000000000})
+			ts := base + d
+			if ts > gen.MaxTimestampNs {
+				ts = base
+			}
+			x.Timestamp = time.Unix(0, ts).In(loc)
+			rs = append(rs, x)
+		}
+	case p < 0.215:
+		shape = "many-records"
+		n := 30 + r.Pick(90)
+		for i := 0; i < n; i++ {
+			o := domainOpts(cn, r)
+			o.MaxBody = 40
+			o.Text.MaxLen = 20
+			rs = append(rs, gen.Result(r, o))
+		}
+	case p < 0.25:
+		// a record that is large through a text or the headers, around the sizes of the buffers involved
+		// (base64 reader 1024, bufio 4096, 64 KiB)
+		shape = "big-field"
+		n := 1 + r.Pick(3)
+		for i := 0; i < n; i++ {
+			rs = append(rs, gen.Result(r, domainOpts(cn, r)))
+		}
+		band := bigSizes[r.Pick(len(bigSizes))]
+		if r.Chance(0.12) {
+			band = hugeSizes[r.Pick(len(hugeSizes))]
+		}
+		kind := gen.BigFieldKinds[1+r.Pick(len(gen.BigFieldKinds)-1)] // bodies are covered by MaxBody
+		k := r.Pick(n)
+		gen.Inflate(r, &rs[k], kind, band[0]+r.Pick(band[1]-band[0]), domainOpts(cn, r).Text)
+		shape += ":" + kind
+	default:
+		shape = "plain"
+		n := 1 + r.Pick(4)
+		for i := 0; i < n; i++ {
+			rs = append(rs, gen.Result(r, domainOpts(cn, r)))
+		}
+	}
+	if cn != "csv" && r.Chance(0.06) && len(rs) > 0 {
+		// a header key whose value slice is nil (JSON null, gob count 0); CSV would drop such a key
+		k := r.Pick(len(rs))
+		if rs[k].Headers == nil {
+			rs[k].Headers = http.Header{}
+		}
+		rs[k].Headers["X-Nil"] = nil
+		shape += "+nil-header-values"
+	}
+	return rs, shape
 }
 
 func nontrivial(rs []vegeta.Result) bool {
@@ -737,6 +895,33 @@ func countDist(s *kit.Summary, cn string, rs []vegeta.Result) {
 		default:
 			s.Count(fmt.Sprintf("%s:body=len%%3=%d", cn, len(x.Body)%3))
 		}
+		if n := len(x.Attack) + len(x.Error) + len(x.Method) + len(x.URL); n > 4096 {
+			s.Count(cn + ":texts>4096B")
+			if n > 65536 {
+				s.Count(cn + ":texts>64KiB")
+			}
+		}
+		if hb := len(headerBytesReal(x.Headers)); hb > 1024 {
+			s.Count(cn + ":header-block>1024B")
+			if hb > 4096 {
+				s.Count(cn + ":header-block>4096B")
+			}
+			if hb > 65536 {
+				s.Count(cn + ":header-block>64KiB")
+			}
+		}
+		if len(x.Headers) > 20 {
+			s.Count(cn + ":headers>20keys")
+		}
+		if i > 0 {
+			y := &rs[i-1]
+			if (y.Headers != nil && x.Headers == nil) || (len(y.Body) > 0 && len(x.Body) == 0) || (y.Error != "" && x.Error == "") {
+				s.Count(cn + ":zero-field-after-set-field")
+			}
+			if y.Timestamp.Unix() == x.Timestamp.Unix() {
+				s.Count(cn + ":same-second-as-previous")
+			}
+		}
 		all := x.Attack + x.Error + x.Method + x.URL
 		for _, f := range []struct{ n, sub string }{{"quote", "\""}, {"comma", ","}, {"newline", "\n"}, {"cr", "\r"}, {"backslash", "\\"}, {"html", "<"}, {"u2028", "\u2028"}} {
 			if strings.Contains(all, f.sub) {
@@ -764,10 +949,17 @@ func codecRun(c *run.Ctx, r *kit.Rng, s *kit.Summary, cn string, n int) {
 	}
 	var multi []pending
 	for i := 0; i < n; i++ {
-		rs := genResults(r, cn)
+		rs, shape := genShaped(r, cn)
+		s.Count(cn + ":shape=" + shape)
 		countDist(s, cn, rs)
 		s.Case(fmt.Sprint(cn, ":", mkInput(cn, rs)), nontrivial(rs))
 		enc, ok := oracle(s, cd, rs)
+		switch {
+		case len(enc) > 65536:
+			s.Count(cn + ":stream>64KiB")
+		case len(enc) > 4096:
+			s.Count(cn + ":stream>4096B")
+		}
 		if i < 2 {
 			s.Sample(map[string]interface{}{"codec": cn, "results": mkInput(cn, rs).Results, "encoded": string(enc)})
 		}
@@ -818,6 +1010,134 @@ func codecRun(c *run.Ctx, r *kit.Rng, s *kit.Summary, cn string, n int) {
 			s.Diverge(cn+"-model-encoder", ops[i], "real decoder reads the original result back", "real decoder on the model's bytes: "+gen.ResultsLine(back, term, false))
 		}
 	}
+}
+
+// equalRun: Result.Equal / headerEqual are "the notion of equality" of the property. A deep copy must be
+// Equal, a copy that differs in exactly one field must not be; nil and empty bodies are equal, a nil and an
+// empty header map are not. Every pair also goes to the model (`c07.equal`).
+func equalRun(c *run.Ctx, r *kit.Rng, s *kit.Summary, n int) {
+	st := &kit.Stream{Name: "equal"}
+	for i := 0; i < n; i++ {
+		a := fullResult(r, "json")
+		if r.Chance(0.3) {
+			a = sparse(r, a, 0.4)
+		}
+		b := gen.CloneResult(&a)
+		what := "copy"
+		want := true
+		switch k := r.Pick(25); k {
+		case 0:
+			b.Attack += "x"
+			what, want = "attack", false
+		case 1:
+			b.Seq++
+			what, want = "seq", false
+		case 2:
+			b.Code ^= 1
+			what, want = "code", false
+		case 3:
+			b.Timestamp = b.Timestamp.Add(time.Duration(r.PickI64([]int64{1, -1, 1000, 1000000000})))
+			what, want = "timestamp", false
+		case 4:
+			b.Latency++
+			what, want = "latency", false
+		case 5:
+			b.BytesOut++
+			what, want = "bytes_out", false
+		case 6:
+			b.BytesIn++
+			what, want = "bytes_in", false
+		case 7:
+			b.Error += "!"
+			what, want = "error", false
+		case 8:
+			b.Body = append(append([]byte{}, b.Body...), 0)
+			what, want = "body", false
+		case 9:
+			b.Method += "S"
+			what, want = "method", false
+		case 10:
+			b.URL += "/"
+			what, want = "url", false
+		case 11: // BytesIn and BytesOut exchanged
+			if b.BytesIn != b.BytesOut {
+				b.BytesIn, b.BytesOut = b.BytesOut, b.BytesIn
+				what, want = "bytes_in<->bytes_out", false
+			}
+		case 12:
+			a.Body, b.Body = nil, []byte{}
+			what = "body nil vs empty"
+		case 13:
+			a.Headers, b.Headers = nil, http.Header{}
+			what, want = "headers nil vs empty", false
+		case 14, 15, 16, 17, 18:
+			if len(b.Headers) == 0 {
+				break
+			}
+			ks := make([]string, 0, len(b.Headers))
+			for key := range b.Headers {
+				ks = append(ks, key)
+			}
+			sort.Strings(ks)
+			key := ks[r.Pick(len(ks))]
+			vs := b.Headers[key]
+			switch {
+			case k == 14 && len(vs) > 0:
+				j := r.Pick(len(vs))
+				vs[j] += "z"
+				what, want = "header value", false
+			case k == 15:
+				b.Headers[key] = append(vs, "extra")
+				what, want = "header value added", false
+			case k == 16 && len(vs) >= 2 && vs[0] != vs[len(vs)-1]:
+				vs[0], vs[len(vs)-1] = vs[len(vs)-1], vs[0]
+				what, want = "header values reordered", false
+			case k == 17 && len(vs) > 0:
+				delete(b.Headers, key)
+				b.Headers["X-Renamed-"+key] = vs
+				what, want = "header key renamed", false
+			case k == 18:
+				b.Headers["X-One-More"] = []string{"v"}
+				what, want = "header key added", false
+			}
+		case 21, 22, 23:
+			// value lists that look alike when glued together
+			if b.Headers == nil {
+				b.Headers = http.Header{}
+				a.Headers = http.Header{}
+			}
+			switch k {
+			case 21:
+				a.Headers["X-Split"], b.Headers["X-Split"] = []string{"ab", "c"}, []string{"a", "bc"}
+				what, want = "header values split differently", false
+			case 22:
+				a.Headers["X-Split"], b.Headers["X-Split"] = []string{"ab"}, []string{"ab", ""}
+				what, want = "empty header value appended", false
+			default:
+				a.Headers["X-Split"], b.Headers["X-Split"] = []string{"a", "b"}, []string{"ab"}
+				what, want = "two header values vs their concatenation", false
+			}
+		case 19:
+			b.Timestamp = b.Timestamp.In(time.FixedZone("", 3600*int(r.Range(-11, 11))))
+			what = "same instant, other zone"
+		case 20:
+			if len(b.Body) > 0 {
+				b.Body[r.Pick(len(b.Body))] ^= 0x20
+				what, want = "body byte", false
+			}
+		}
+		var ab, ba bool
+		p, _ := kit.Recover(func() { ab, ba = a.Equal(b), b.Equal(a) })
+		s.Count("equal:" + what)
+		s.Case(fmt.Sprint("equal:", i, what), true)
+		if p || ab != want || ba != want {
+			s.Violate(kit.Violation{Kind: "equal_semantics", What: "Result.Equal does not tell apart results that differ in one field / does not accept a copy (difference: " + what + ")",
+				Input:    map[string]interface{}{"a": gen.ResultLine(&a), "b": gen.ResultLine(&b), "difference": what, "want_equal": want, "zone_sec_b": zoneMin(&b) * 60},
+				Expected: fmt.Sprint(want), Observed: fmt.Sprintf("a.Equal(b)=%v b.Equal(a)=%v panic=%v", ab, ba, p)})
+		}
+		st.Add("c07.equal "+gen.ResultLine(&a)+" "+gen.ResultLine(&b), kit.B(ab))
+	}
+	st.Diff(c.Driver, s)
 }
 
 // recWriter records what every Encode call hands to the writer.
@@ -930,6 +1250,9 @@ func mutatedRun(c *run.Ctx, r *kit.Rng, s *kit.Summary, cn string, n int) {
 			}
 		}
 		enc, _ := encodeAll(cd, rs)
+		if len(enc) > 20000 {
+			continue
+		}
 		t := gen.Mutate(r, string(enc))
 		real, term := decodeAll(cd, []byte(t))
 		if term == "panic" {
@@ -984,6 +1307,33 @@ func replay(c *run.Ctx, s *kit.Summary) {
 	if err := json.Unmarshal(raw, &rec); err != nil {
 		panic(err)
 	}
+	if rec.Kind == "equal_semantics" {
+		var e struct {
+			Input struct {
+				A, B       string
+				Difference string
+				WantEqual  bool `json:"want_equal"`
+				ZoneSecB   int  `json:"zone_sec_b"`
+			} `json:"input"`
+		}
+		if err := json.Unmarshal(raw, &e); err != nil {
+			panic(err)
+		}
+		a, err1 := gen.ParseResultLine(e.Input.A)
+		b, err2 := gen.ParseResultLine(e.Input.B)
+		if err1 != nil || err2 != nil {
+			panic(fmt.Sprint(err1, err2))
+		}
+		if e.Input.ZoneSecB != 0 {
+			b.Timestamp = b.Timestamp.In(time.FixedZone("", e.Input.ZoneSecB))
+		}
+		s.Case("replay", true)
+		if ab, ba := a.Equal(b), b.Equal(a); ab != e.Input.WantEqual || ba != e.Input.WantEqual {
+			s.Violate(kit.Violation{Kind: "equal_semantics", What: "Result.Equal does not tell apart results that differ in one field / does not accept a copy (difference: " + e.Input.Difference + ")",
+				Input: e.Input, Expected: fmt.Sprint(e.Input.WantEqual), Observed: fmt.Sprintf("a.Equal(b)=%v b.Equal(a)=%v", ab, ba)})
+		}
+		return
+	}
 	var rs []vegeta.Result
 	for i, ln := range rec.Input.Results {
 		x, err := gen.ParseResultLine(ln)
@@ -1018,10 +1368,11 @@ func runC07(c *run.Ctx, s *kit.Summary) {
 	layerMIME(c, r, s)
 	layerJSONString(c, r, s)
 	layerTime(c, r, s)
-	codecRun(c, r, s, "csv", c.N(4000, 150000))
-	codecRun(c, r, s, "json", c.N(4000, 150000))
-	codecRun(c, r, s, "gob", c.N(3000, 80000))
-	gobModelRun(c, r, s, c.N(3000, 100000))
+	codecRun(c, r, s, "csv", c.N(4000, 50000))
+	codecRun(c, r, s, "json", c.N(4000, 50000))
+	codecRun(c, r, s, "gob", c.N(3000, 30000))
+	gobModelRun(c, r, s, c.N(3000, 40000))
+	equalRun(c, r, s, c.N(3000, 100000))
 	mutatedRun(c, r, s, "csv", c.N(2000, 60000))
 	mutatedRun(c, r, s, "json", c.N(2000, 60000))
 }
